@@ -112,8 +112,8 @@ def prove(run):
             # ---- reduced density matrices: polynomial identity with the partial trace of |psi><psi| (pure state) / A A^+ (density-operator form)
             from renormalizer.mps import MpDm
             Hn = Mpo(model, terms)
-            objs = [("Mps", a, atc, False)]
-            if gauge == "fresh":
+            objs = [("Mps", a, atc, False)] if n <= 3 or gauge == "fresh" else []
+            if gauge == "fresh" and n <= 3:          # (the polynomials of a density operator's two-site RDM grow with the fourth power of the tensor entries)
                 A0 = Hn.apply(MpDm.from_mps(a0))
                 if n >= 2:
                     A0 = mpos[1].apply(A0)
